@@ -476,6 +476,11 @@ class MinFlowDecomp(pathmodel.AbstractPathModelDAG): # Note that we inherit from
 
             subgraph_subpath_constraints = [c for c in self.subpath_constraints if all(n in subgraph.nodes() for n in c)]
             subgraph_edges_to_ignore = [e for e in self.edges_to_ignore if all(n in subgraph.nodes() for n in e)]
+
+            # If all edges carrying a flow value in this window are ignored, there is nothing to decompose here
+            if not any(self.flow_attr in data and (u, v) not in subgraph_edges_to_ignore for u, v, data in subgraph.edges(data=True)):
+                right_node_index = min(right_node_index + MinFlowDecomp.subgraph_lowerbound_shift, self.G.number_of_nodes() - 1)
+                continue
             
             subgraph_optimization_options = copy.deepcopy(self.optimization_options)
             subgraph_optimization_options["use_subgraph_scanning_lowerbound"] = False
